@@ -14,12 +14,13 @@ RULE = ('Evaluation = one (scene, bijectively renamed scene) pair run through th
         'Non-trivial = >= 2 ceilometers; distinct = hash of (rows, parameters, mapping).')
 ASSUMPTIONS = ['names are non-empty distinct strings']
 REQUIRED = ['order_reversing', 'substring_names', 'regex_like_names', 'numeric_string_names', 'exclusion_mapped',
-            'exclusion_fallback', 'lookback_lt100_coincident', 'permutation_of_same_names']
+            'exclusion_fallback', 'lookback_lt100_coincident', 'permutation_of_same_names', 'exclusion_entry_absent_but_similar']
 SIZES = {'quick': 300, 'thorough': 8000}
 TARGETS = [
     ('numeric_string_names', ['9', '10', '11', '100', '2', '1', '20', '3']),
     ('substring_names', ['PAY', 'PAYERNE', 'PAYERNE-2', 'AY', 'P', 'ERN', 'NE-2', 'Y']),
     ('regex_like_names', ['a.c', 'abc', '.*', 'a|b', '[ab]', 'a+', '^a', 'b$']),
+    ('case_variant_names', ['Alpha', 'ALPHA', 'alpha', 'Bravo', 'bravo', 'BRAVO', 'aLPHA', 'Charlie']),
     ('emptyish_names', [' ', '  ', '_', '-', '.', ',', ';', '0']),
     ('long_unicode_names', ['Zürich-' + 'x' * 50, 'Genève', 'Sion✈', 'Bâle', 'Ünter', 'ß', 'é', 'è']),
 ]
@@ -46,6 +47,14 @@ def check(desc):
             prm['call']['EXCLUDE_FOR_BASE_HEIGHT_CALC'] = [n for n in sc['names'] if rng.uniform() < 0.5]
         if i % 4 == 1:
             prm['call']['BASE_LVL_LOOKBACK_PERC'] = float(rng.choice([50, 30, 10]))
+    if i % 5 == 2:
+        # an exclusion entry that names no instrument of the chunk but equals one up to case / blanks
+        present = sorted(set(r[0] for r in sc['rows']))
+        pick = present[int(rng.integers(len(present)))]
+        for cand in (pick.upper(), pick.lower(), pick.swapcase(), pick + ' ', ' ' + pick, pick.title()):
+            if cand not in present:
+                prm['call']['EXCLUDE_FOR_BASE_HEIGHT_CALC'] = list(prm['call'].get('EXCLUDE_FOR_BASE_HEIGHT_CALC') or []) + [cand]
+                break
     eff = obs.effective(prm)
     viol, tags = [], set()
     res = {'evals': 0, 'nontrivial': [], 'counters': {'runs': 0}, 'viol': viol}
@@ -75,6 +84,8 @@ def check(desc):
         # names of the list that do not occur in the data get fresh names that do not occur either
         prm2['call']['EXCLUDE_FOR_BASE_HEIGHT_CALC'] = [mp.get(n, 'absent-' + str(k)) for k, n in enumerate(ex)]
         tags.add('exclusion_mapped')
+        if any(n not in mp and n.strip().lower() in {m.strip().lower() for m in mp} for n in ex):
+            tags.add('exclusion_entry_absent_but_similar')
     o1, e1 = twin.observe_run(scenes.frame(sc), prm)
     o2, e2 = twin.observe_run(scenes.frame(sc2), prm2)
     res['counters']['runs'] = 2
